@@ -174,6 +174,13 @@ class Feature(tuple, metaclass=abc.ABCMeta):
     def __hash__(self):
         return hash(self.__class__) ^ super().__hash__()
 
+    def __eq__(self, other):
+        # consistent with __hash__: features of different types are never equal
+        return other.__class__ is self.__class__ and super().__eq__(other)
+
+    def __ne__(self, other):
+        return not self == other
+
     @abc.abstractmethod
     def accept(self, visitor: 'dsl.Feature.Visitor') -> None:
         """Visitor acceptor.
